@@ -88,6 +88,8 @@ def _c02(tier):
             p_nsamples=0.5, p_restarts=0.6, p_growing=0.0, p_faults=1.0, allow_raise=False, maxfun_choices=BUDGETS_BIG))),
         _linalg_leg(tier, ['C02'], p_nsamples=0.5, p_noise=0.4, p_logging=0.9),
         _target_leg(tier, ['C02'], units=24, p_logging=0.9),
+        dict(name='fault-then-cut-enumeration', leg='faultpoints', units=U(tier, 30, 300), opts=dict(oracles=['C02'], kinds=['nan', '+inf'], cut_after=(1, 2),
+             ref_budget_cap=U(tier, 40, 60), salt='faultcut', profile=P(p_nsamples=0.6, p_noise=0.4, p_restarts=0.7, p_growing=0.0, p_logging=0.9, p_nanregion=0.0, maxfun_choices=[25, 40, 60]))),
     ]
 
 
@@ -103,6 +105,8 @@ def _c03(tier):
             p_restarts=0.6, p_growing=0.0, p_faults=1.0, allow_raise=False, maxfun_choices=BUDGETS_BIG))),
         _linalg_leg(tier, ['C03'], probes=('final',), p_nsamples=0.4, p_noise=0.4),
         _target_leg(tier, ['C03'], probes=('final',)),
+        dict(name='fault-then-cut-enumeration', leg='faultpoints', units=U(tier, 30, 300), opts=dict(oracles=['C03'], probes=('final',), kinds=['nan', '+inf'], cut_after=(1, 2),
+             ref_budget_cap=U(tier, 40, 60), salt='faultcut', profile=P(p_nsamples=0.4, p_noise=0.4, p_restarts=0.7, p_growing=0.0, p_nanregion=0.0, maxfun_choices=[25, 40, 60]))),
     ]
 
 
@@ -252,6 +256,11 @@ def _c08(tier):
             p_bounds=0.5, p_restarts=0.5, p_growing=0.0, p_nanregion=1.0, maxfun_choices=BUDGETS_BIG))),
         dict(name='growing-faulted', leg='swarm', units=U(tier, 40), opts=dict(per_unit=8, oracles=['C08'], salt='growing', profile=P(
             p_growing=1.0, p_faults=1.0, maxfun_choices=BUDGETS_BIG))),
+        # every pair k1 < k2 of bad replies (NaN/NaN, NaN/inf, inf/NaN) on short runs: second-order interactions (a bad value inside the
+        # restart or geometry repair that an earlier bad value triggered)
+        dict(name='fault-pair-enumeration', leg='faultpoints', units=U(tier, 24, 200), opts=dict(oracles=['C08'], kinds=['nan'], pairs=True, pair_cap=U(tier, 18, 30),
+             ref_budget_cap=U(tier, 18, 30), salt='pairs', profile=P(p_bounds=0.6, p_restarts=0.8, p_nsamples=0.3, p_noise=0.2, p_growing=0.0, p_diag=0.3,
+             maxfun_choices=[12, 15, 18], p_buggify=0.4, p_nanregion=0.0, n_choices=[1, 2, 2, 3, 3, 4]))),
     ]
 
 
